@@ -313,7 +313,7 @@ type c28Sample struct {
 // c28Case runs the whole C28 oracle for one (schema, flags, mutation) case. fatal reports a
 // violation with the complete case.
 func c28Case(rec *ev.Rec, t testing.TB, root string, src schemaSrc, f protoFlags, key string,
-	mutKind string, pickTarget func(n int) int, nodeName string, flip *protoFlags, classes []string, schemaText string,
+	mutKind string, pickTarget func(n int) int, nodeName string, flip *protoFlags, repeat bool, classes []string, schemaText string,
 	fatal func(format string, a ...interface{})) {
 
 	describe := func(po *protoOut) string {
@@ -370,18 +370,26 @@ func c28Case(rec *ev.Rec, t testing.TB, root string, src schemaSrc, f protoFlags
 	}
 	wellFormed := len(probs) == 0
 
-	// stability across runs: the same command again, byte-identical tree
-	po2, log2, err := runProtoGen(t, root, src, f)
-	if err != nil {
+	// stability across runs: the same command again, byte-identical tree (C25 owns determinism;
+	// here it is the "stable across runs" clause for the numbers, checked on a third of the cases)
+	if !repeat {
+		goto mutation
+	}
+	{
+		po2, log2, err := runProtoGen(t, root, src, f)
+		if err != nil {
 		rec.Case(key, nontrivial, append(classes, "violation")...)
 		fatal("second run of the same command failed although the first succeeded\n%soutput:\n%s", describe(po), indent(tail(log2, 3000)))
 		return
 	}
-	if d := diffRaw(po.Raw, po2.Raw); d != "" {
-		rec.Case(key, nontrivial, append(classes, "violation")...)
-		fatal("two runs of the same command differ: %s\n%s", d, describe(po))
-		return
+		if d := diffRaw(po.Raw, po2.Raw); d != "" {
+			rec.Case(key, nontrivial, append(classes, "violation")...)
+			fatal("two runs of the same command differ: %s\n%s", d, describe(po))
+			return
+		}
+		classes = append(classes, "repeat-run")
 	}
+mutation:
 
 	// metamorphic: an unrelated node is added; every field present in both keeps its number
 	mutDesc := "none"
@@ -576,7 +584,7 @@ func TestC28_Fixed(t *testing.T) {
 				flip = &g
 			}
 			failed := false
-			c28Case(rec, t, root, s, f, key, mut, func(k int) int { return (n * 7) % k }, name, flip, []string{"fixed"}, "",
+			c28Case(rec, t, root, s, f, key, mut, func(k int) int { return (n * 7) % k }, name, flip, n%3 == 0, []string{"fixed"}, "",
 				func(format string, a ...interface{}) {
 					failed = true
 					msg := fmt.Sprintf(format, a...)
@@ -645,9 +653,10 @@ func TestC28_Random(t *testing.T) {
 			g := irrelevantFlip(rt, f)
 			flip = &g
 		}
+		repeat := rapid.IntRange(0, 2).Draw(rt, "repeat-run") == 0
 		key := strings.Join([]string{src.Label, schemaText, f.String(), mut, name, fmt.Sprint(tsel), fmt.Sprint(flip != nil)}, "|")
 		counts[src.Kind]++
-		c28Case(rec, t, root, src, f, key, mut, func(k int) int { return tsel % k }, name, flip, classes, schemaText, rt.Fatalf)
+		c28Case(rec, t, root, src, f, key, mut, func(k int) int { return tsel % k }, name, flip, repeat, classes, schemaText, rt.Fatalf)
 	})
 	total := counts["corpus"] + counts["repo"] + counts["random"]
 	if total >= 12 && !t.Failed() {
